@@ -4,6 +4,8 @@ package main
 
 import (
 	"math/big"
+	"reflect"
+	"strings"
 	"strconv"
 	"time"
 
@@ -46,15 +48,33 @@ const probeType = int32(9020)
 var probeFn func(tag string, adb *account.AccountDB)
 
 var mainCast uint64
+var devCfg = map[string]uint64{}
 
-// activate sets the chain configuration for everything that follows: a sub chain is a node started with a
-// genesis.json (common.Genesis != nil = common.IsSub()); on a sub chain the native balance lives in another slot
-// position of the token contract, so a world keeps its configuration for its whole life.
-func activate(sub bool) {
+// activate sets the chain configuration for everything that follows.
+//   sub: a sub chain is a node started with a genesis.json (common.Genesis != nil = common.IsSub()); the native balance
+//        then lives in another slot position of the token contract, so a world keeps its configuration for its whole life;
+//   regime: which proposal gates are open at the heights of this world - 0: all (dev configuration), 1: all but
+//        proposal002 / proposal003 (their fork heights moved above every height used), 2: none.
+func activate(sub bool, regime int) {
 	if sub {
 		common.Genesis = &common.GenesisConf{Name: "verif-sub", ChainId: "9527", Cast: mainCast}
 	} else {
 		common.Genesis = nil
+	}
+	v := reflect.ValueOf(&common.LocalChainConfig).Elem()
+	for i := 0; i < v.NumField(); i++ {
+		name := v.Type().Field(i).Name
+		if !strings.HasPrefix(name, "Proposal") || !strings.HasSuffix(name, "Block") || v.Field(i).Kind() != reflect.Uint64 {
+			continue
+		}
+		if _, ok := devCfg[name]; !ok {
+			devCfg[name] = v.Field(i).Uint()
+		}
+		val := devCfg[name]
+		if regime == 2 || (regime == 1 && (name == "Proposal002Block" || name == "Proposal003Block")) {
+			val = 1000000000
+		}
+		v.Field(i).SetUint(val)
 	}
 }
 
@@ -75,10 +95,14 @@ var switchFns = map[string]func() bool{
 }
 var switchCover = map[string]map[string]map[bool]int{}
 
-func switchSeen(sub bool) {
-	fam := "main-chain worlds"
+var families = []string{"main-chain worlds", "sub-chain worlds", "worlds before proposal002/003", "worlds before every proposal"}
+
+func switchSeen(sub bool, regime int) {
+	fam := families[0]
 	if sub {
-		fam = "sub-chain worlds"
+		fam = families[1]
+	} else if regime > 0 {
+		fam = families[1+regime]
 	}
 	if switchCover[fam] == nil {
 		switchCover[fam] = map[string]map[bool]int{}
@@ -105,6 +129,7 @@ func boot(height uint64) {
 	vm.InitVM()
 	executor.InitExecutors()
 	core.VerifC06InitLoggers()
+	account.Init() // the package logger of storage/account (IncreaseNonce logs through it before proposal006)
 	mainCast = common.GetCastingInterval()
 	common.GetRewardBlocks()
 	common.GetRefundBlocks()
@@ -123,6 +148,7 @@ type nodeWorld struct {
 	ADB  *account.AccountDB
 	Root common.Hash
 	Sub  bool // sub-chain configuration
+	Regime int // proposal-gate regime (see activate)
 }
 
 func newNodeWorld() *nodeWorld {
@@ -215,8 +241,8 @@ func newTx(typ int32, src, data string) *types.Transaction {
 // IntermediateRoot. After every transaction a probe transaction hands the running AccountDB to probe(i, adb).
 func runBlock(w *nodeWorld, h uint64, castor, groupId []byte, txs []*types.Transaction, probe func(i int, adb *account.AccountDB)) []*types.Receipt {
 	common.SetBlockHeight(h)
-	activate(w.Sub)
-	switchSeen(w.Sub)
+	activate(w.Sub, w.Regime)
+	switchSeen(w.Sub, w.Regime)
 	hd := header(h)
 	hd.Castor = castor
 	hd.GroupId = groupId
